@@ -11,8 +11,11 @@ MODULES += ["util", "errors"]
 MODULES += ["output"]
 MODULES += ["validation"]
 # MODULES += ["json_"]   (json_default contract: work in progress)
-MODULES += ["testing"]
+MODULES += ["testing", "testing17"]
 MODULES += ["lemmas"]
 MODULES += ["generators"]
 MODULES += ["logwriter"]
 MODULES += ["readers"]
+import os as _os
+if _os.environ.get("PYVC_EXTRA"):
+    MODULES += _os.environ["PYVC_EXTRA"].split(",")
